@@ -31,3 +31,18 @@ Definition d_cycle : document :=
 Theorem frag_inline_idempotent_refuted :
   exists S d, frag_inline S (frag_inline S d) <> frag_inline S d.
 Proof. exists S0, d_cycle. vm_compute. discriminate. Qed.
+
+(* { count @skip(if: false) @include(if: false) @tag } : the directive walk drops @skip, then reads
+   the position after it, which by now holds @tag -- @include(if: false) is not visited and the
+   field survives this run; a second run removes it (the real first stage does exactly this, the
+   engine's second normalisation repairs it) *)
+Definition dir_tag : directive := {| d_name := [116;97;103]; d_args := [] |}.
+Definition dir_include (v : value) : directive := {| d_name := s_include; d_args := [(s_if, v)] |}.
+Definition d_three : document :=
+  [ DOp {| op_kind := OpQuery; op_name := None; op_vars := []; op_dirs := [];
+           op_sels := [ SField None n_count [] [dir_skip (VBool false); dir_include (VBool false); dir_tag] [];
+                        SField None n_a [] [] [ SField None n_name [] [] [] ] ] |} ].
+
+Theorem include_skip_idempotent_refuted :
+  exists jv d, include_skip jv (include_skip jv d) <> include_skip jv d.
+Proof. exists [], d_three. vm_compute. discriminate. Qed.
